@@ -119,6 +119,48 @@ func (g *Gen) implementors(iface types.Type) []types.Type {
 	return out
 }
 
+// computeMutableGlobals: package-level variables written outside init functions.
+func (g *Gen) computeMutableGlobals() {
+	g.mutableGlobals = map[string]bool{}
+	g.globalStored = map[string]bool{}
+	g.globalMaybeNil = map[string]bool{}
+	for _, f := range g.allFuncs {
+		for _, b := range f.Blocks {
+			for _, in := range b.Instrs {
+				if st, ok := in.(*ssa.Store); ok {
+					if gl, ok := st.Addr.(*ssa.Global); ok {
+						hv := "G:" + g.relPkg(gl.Pkg.Pkg.Path()) + "." + gl.Name()
+						g.globalStored[hv] = true
+						switch st.Val.(type) {
+						case *ssa.MakeChan, *ssa.MakeMap, *ssa.Alloc, *ssa.MakeClosure:
+						default:
+							g.globalMaybeNil[hv] = true
+						}
+					}
+				}
+			}
+		}
+	}
+	for _, f := range g.allFuncs {
+		root := f
+		for root.Parent() != nil {
+			root = root.Parent()
+		}
+		if strings.HasPrefix(root.Name(), "init") {
+			continue
+		}
+		for _, b := range f.Blocks {
+			for _, in := range b.Instrs {
+				if st, ok := in.(*ssa.Store); ok {
+					if gl, ok := st.Addr.(*ssa.Global); ok {
+						g.mutableGlobals["G:"+g.relPkg(gl.Pkg.Pkg.Path())+"."+gl.Name()] = true
+					}
+				}
+			}
+		}
+	}
+}
+
 func (g *Gen) computeSummaries() {
 	g.summaries = map[*ssa.Function]*summary{}
 	c := newFnCtx()
@@ -1232,6 +1274,8 @@ func (t *fnTrans) selectInstr(in *ssa.Select) {
 	t.lastSel = idx
 	if st := t.sites[in]; st != "" {
 		t.selIdx[st] = idx
+		hv := t.h.reg("ghost:sel:"+st, "Int")
+		t.h.set(t.cur, hv, idx)
 	}
 	recvOk := t.c.declare(t.c.fresh(in.Name()+".ok"), "Bool")
 	out := []string{idx, recvOk}
